@@ -527,6 +527,43 @@ def _single_exit(body):
     return pre, expr
 
 
+def _returns_to_assign(stmts, ret):
+    """value-returning body in single-exit form: every `return e` becomes `ret = e` and the statements after a conditional return
+    move into the branch that did not return (duplicated when both branches can fall through).  None when a return sits inside a
+    loop / try / with, or when the result would grow beyond 40 statements."""
+    budget = [40]
+
+    def conv(stmts):
+        out = []
+        for i, st in enumerate(stmts):
+            budget[0] -= 1
+            if budget[0] < 0:
+                return None
+            if isinstance(st, ast.Return):
+                val = st.value if st.value is not None else ast.Constant(value=None)
+                out.append(ast.copy_location(ast.Assign(targets=[ast.Name(id=ret, ctx=ast.Store())], value=val), st))
+                return out
+            if isinstance(st, ast.If) and any(isinstance(x, ast.Return) for x in ast.walk(st)):
+                rest = stmts[i + 1:]
+                nb = conv(list(st.body) + copy.deepcopy(rest))
+                ne = conv(list(st.orelse) + copy.deepcopy(rest))
+                if nb is None or ne is None:
+                    return None
+                out.append(ast.copy_location(ast.If(test=st.test, body=nb or [ast.copy_location(ast.Pass(), st)], orelse=ne), st))
+                return out
+            if any(isinstance(x, ast.Return) for x in ast.walk(st)):
+                return None
+            out.append(st)
+        out.append(ast.Assign(targets=[ast.Name(id=ret, ctx=ast.Store())], value=ast.Constant(value=None)))
+        return out
+    res = conv(stmts)
+    if res is None:
+        return None
+    for x in res:
+        ast.fix_missing_locations(x)
+    return res
+
+
 def _one_loop_generator(body):
     """(iter expression, target name, filter tests) for a generator helper of the form `for v in XS: [if c:] yield v`"""
     body = [s_ for s_ in body if not (isinstance(s_, ast.Expr) and isinstance(s_.value, ast.Constant) and isinstance(s_.value.value, str))]
@@ -630,15 +667,19 @@ def inline_helpers_v2(tree):
                 continue
             se = None if gen else _single_exit(copy.deepcopy(body))
             void_body = None
+            multi = None
             if not gen and se is None:
                 if _returns_value(h):
-                    continue
-                void_body = _early_return_to_else(copy.deepcopy(body))
-                if void_body is None:
-                    continue
+                    multi = _returns_to_assign(copy.deepcopy(body), '__ret__')
+                    if multi is None:
+                        continue
+                else:
+                    void_body = _early_return_to_else(copy.deepcopy(body))
+                    if void_body is None:
+                        continue
             done_all = True
             for sc, call in calls:
-                if not _inline_one(sc, call, h, kind, cls_name, gen, se, void_body):
+                if not _inline_one(sc, call, h, kind, cls_name, gen, se, void_body, multi):
                     done_all = False
                 else:
                     total += 1
@@ -734,7 +775,7 @@ def _replace_expr(stmt, old, new):
     R().visit(stmt)
 
 
-def _inline_one(scope, call, h, kind, cls_name, gen, se, void_body):
+def _inline_one(scope, call, h, kind, cls_name, gen, se, void_body, multi=None):
     loc = _stmt_of(scope, call)
     if loc is None:
         return False
@@ -785,6 +826,22 @@ def _inline_one(scope, call, h, kind, cls_name, gen, se, void_body):
         for x in blk:
             ast.fix_missing_locations(x)
         return True
+    if multi is not None:
+        # several returns: the body (returns turned into assignments of a result local) is hoisted in front of the statement
+        # that holds the call.  Only when the call is evaluated unconditionally and first-ish in that statement.
+        if not isinstance(st, (ast.Assign, ast.AugAssign, ast.AnnAssign, ast.Return, ast.Expr, ast.If)):
+            return False
+        holder = st.test if isinstance(st, ast.If) else st
+        if not _unconditional_in(holder, call):
+            return False
+        rname = 'ret__%s%s' % (h.name.lstrip('_'), _uid())
+        sub.rename['__ret__'] = rname
+        new_pre = [ast.copy_location(p_, st) for p_ in pre] + conv(multi)
+        _replace_expr(st, call, ast.copy_location(ast.Name(id=rname, ctx=ast.Load()), call))
+        blk[idx:idx] = new_pre
+        for x in blk:
+            ast.fix_missing_locations(x)
+        return True
     # void helper: statement call only
     if not (isinstance(st, ast.Expr) and st.value is call):
         return False
@@ -795,6 +852,39 @@ def _inline_one(scope, call, h, kind, cls_name, gen, se, void_body):
     for x in blk:
         ast.fix_missing_locations(x)
     return True
+
+
+def _unconditional_in(holder, call):
+    """the call is evaluated whenever the holder is: not under a short-circuit operand (other than the first), a conditional
+    expression branch, a comprehension or a lambda"""
+    def walk(n, cond):
+        if n is call:
+            return not cond
+        if isinstance(n, (ast.Lambda, ast.ListComp, ast.SetComp, ast.DictComp, ast.GeneratorExp)):
+            return None if not any(x is call for x in ast.walk(n)) else False
+        if isinstance(n, ast.BoolOp):
+            for k, v in enumerate(n.values):
+                r = walk(v, cond or k > 0)
+                if r is not None:
+                    return r
+            return None
+        if isinstance(n, ast.IfExp):
+            r = walk(n.test, cond)
+            if r is not None:
+                return r
+            for v in (n.body, n.orelse):
+                r = walk(v, True)
+                if r is not None:
+                    return r
+            return None
+        for ch in ast.iter_child_nodes(n):
+            if isinstance(ch, ast.stmt):
+                continue
+            r = walk(ch, cond)
+            if r is not None:
+                return r
+        return None
+    return bool(walk(holder, False))
 
 
 def _fold_none_expr(e, known):
@@ -842,3 +932,154 @@ def _role_like(container, h):
             if isinstance(x, (ast.While, ast.If)) and any(isinstance(y, ast.Call) and isinstance(y.func, ast.Name) and y.func.id == h.name for y in ast.walk(x.test)):
                 return True
     return False
+
+
+# ---------------------------------------------------------------------------
+# closure <-> method: a private method / module function used by ONE function only is nested back into it
+# ---------------------------------------------------------------------------
+
+def _free_loads(fn):
+    """names loaded in fn (nested scopes included) that fn does not bind itself"""
+    bound = set(_params(fn)) | _bound_names(fn)
+    if fn.args.vararg:
+        bound.add(fn.args.vararg.arg)
+    if fn.args.kwarg:
+        bound.add(fn.args.kwarg.arg)
+    return {x.id for x in ast.walk(fn) if isinstance(x, ast.Name) and isinstance(x.ctx, ast.Load)} - bound
+
+
+def helpers_to_closures(tree):
+    """A private method `_m(self, ...)` whose only uses in the module are calls `self._m(...)` inside one method M of the same class
+    (its nested functions included), or a private module-level function `_f(...)` whose only uses are calls inside one function M,
+    is moved into M as a nested function (first statement after the docstring); `self._m(` becomes `_m(`.  The rules were written
+    for the closure style of the rule modules (helpers nested in count()); this makes the method style and the module-function style
+    look the same.  Not done when a free name of the helper would be captured by a local of M, for decorated helpers, for names
+    listed as anchors, or when M binds the helper's name."""
+    moved = 0
+    containers = [(tree, None)] + [(c, c.name) for c in ast.walk(tree) if isinstance(c, ast.ClassDef)]
+    for cont, cls_name in containers:
+        fns = [s_ for s_ in cont.body if isinstance(s_, ast.FunctionDef)]
+        for h in list(fns):
+            nm = h.name
+            base = _unmangle(nm, cls_name) if cls_name else nm
+            if not base.startswith('_') or (base.startswith('__') and base.endswith('__')) or base in ANCHOR_METHODS or h.decorator_list:
+                continue
+            if h.args.vararg or h.args.kwarg:
+                continue
+            if any(isinstance(x, (ast.Global, ast.Nonlocal, ast.Yield, ast.YieldFrom, ast.Await)) for x in ast.walk(h)):
+                continue
+            selfn = None
+            if cls_name:
+                if not h.args.args:
+                    continue
+                selfn = h.args.args[0].arg
+            # every reference in the whole module
+            users = {}
+            okrefs = True
+            for m in [x for x in ast.walk(tree) if isinstance(x, ast.FunctionDef)]:
+                pass
+            for top in (cont.body if cls_name else tree.body):
+                for x in ast.walk(top):
+                    ref = None
+                    if cls_name:
+                        if isinstance(x, ast.Attribute) and x.attr in (nm, base):
+                            ref = x
+                    else:
+                        if isinstance(x, ast.Name) and x.id == nm:
+                            ref = x
+                    if ref is not None:
+                        users.setdefault(id(top), [top, []])[1].append(ref)
+            if cls_name:
+                # references outside the class body (other classes of the module) disqualify
+                outside = [x for x in ast.walk(tree) if isinstance(x, ast.Attribute) and x.attr in (nm, base)
+                           and not any(x is y for y in ast.walk(cont))]
+                if outside:
+                    continue
+            if len(users) != 1:
+                continue
+            top, refs = next(iter(users.values()))
+            if top is h or not isinstance(top, ast.FunctionDef):
+                continue
+            M = top
+            calls = [c for c in ast.walk(M) if isinstance(c, ast.Call) and any(c.func is r for r in refs)]
+            if len(calls) != len(refs) or not calls:
+                continue
+            if cls_name:
+                if not M.args.args or M.decorator_list:
+                    continue
+                mself = M.args.args[0].arg
+                if any(not (isinstance(c.func.value, ast.Name) and c.func.value.id == mself) for c in calls):
+                    continue
+                # self of M must still mean self where the call sits (not rebound, not shadowed by a nested def's parameter)
+                if any(isinstance(x, ast.arg) and x.arg == mself for g in ast.walk(M) if isinstance(g, (ast.FunctionDef, ast.Lambda)) and g is not M for x in ast.walk(g.args)):
+                    continue
+            m_bound = _bound_names(M) | set(_params(M))
+            for g in ast.walk(M):
+                if isinstance(g, ast.FunctionDef) and g is not M:
+                    m_bound |= {g.name}
+            if nm in m_bound or base in m_bound:
+                continue
+            free = _free_loads(h) - ({selfn} if selfn else set())
+            if selfn:
+                # the helper's own `self` parameter becomes the free name of M's receiver
+                pass
+            if free & (m_bound - ({mself} if cls_name else set())):
+                continue
+            # move
+            new = copy.deepcopy(h)
+            new.name = base if cls_name else nm
+            if cls_name:
+                new.args.args = new.args.args[1:]
+                if selfn != mself:
+                    _Subst({}, {selfn: mself}).visit(new)
+                    # _Subst does not descend into nested defs: leave those helpers alone
+                    if any(isinstance(x, ast.FunctionDef) for x in ast.walk(new) if x is not new):
+                        continue
+                for c in calls:
+                    c.func = ast.copy_location(ast.Name(id=new.name, ctx=ast.Load()), c.func)
+            at = 1 if (M.body and isinstance(M.body[0], ast.Expr) and isinstance(M.body[0].value, ast.Constant) and isinstance(M.body[0].value.value, str)) else 0
+            M.body.insert(at, new)
+            cont.body.remove(h)
+            moved += 1
+    return moved
+
+
+def eliminate_copies(tree):
+    """`a = b` where a and b are locals bound exactly once in the function (b not a parameter, a not used in nested functions): b is
+    renamed to a everywhere and the copy dropped.  Left behind by inlining `a = helper()` whose result is the helper's local."""
+    n = 0
+    for fn in [x for x in ast.walk(tree) if isinstance(x, (ast.FunctionDef, ast.AsyncFunctionDef))]:
+        changed = True
+        while changed:
+            changed = False
+            stores = {}
+            for x in _own_walk(fn):
+                if isinstance(x, ast.Name) and isinstance(x.ctx, (ast.Store, ast.Del)):
+                    stores.setdefault(x.id, []).append(x)
+            params = set(_params(fn))
+            nested_names = {x.id for g in ast.walk(fn) if isinstance(g, (ast.FunctionDef, ast.Lambda)) and g is not fn for x in ast.walk(g) if isinstance(x, ast.Name)}
+            for st in [x for x in _own_walk(fn) if isinstance(x, ast.Assign)]:
+                if len(st.targets) != 1 or not isinstance(st.targets[0], ast.Name) or not isinstance(st.value, ast.Name):
+                    continue
+                a, b = st.targets[0].id, st.value.id
+                if a == b or len(stores.get(a, [])) != 1 or len(stores.get(b, [])) != 1 or b in params or a in params:
+                    continue
+                if a in nested_names or b in nested_names:
+                    continue
+                # the definition of b must be a plain statement of the same block, earlier than the copy (same control context)
+                loc = _locate(fn, st)
+                if loc is None:
+                    continue
+                blk, i = loc
+                bdef = stores[b][0]
+                if not any(isinstance(s_, (ast.Assign, ast.AnnAssign)) and any(x is bdef for x in ast.walk(s_)) for s_ in blk[:i]):
+                    continue
+                # a must not be read before the copy in this block (it is bound once, here)
+                for x in _own_walk(fn):
+                    if isinstance(x, ast.Name) and x.id == b:
+                        x.id = a
+                blk[i:i + 1] = [] if len(blk) > 1 else [ast.copy_location(ast.Pass(), st)]
+                n += 1
+                changed = True
+                break
+    return n
